@@ -935,14 +935,15 @@ func FuzzTrie(f *testing.F) {
 		}
 		src := &pbt.ListSrc{Choices: choices}
 		var c Case
+		check := "trie"
 		if data[0]%2 == 0 {
 			c = genTrie(src, false)
 		} else {
 			c = genBytes(src, false)
+			check = "bytes"
 		}
 		if err := prop(c, &pbt.R{}); err != nil {
-			b, _ := json.Marshal(c)
-			t.Fatalf("%v\ncase: %s", err, b)
+			pbt.FuzzFail(t, "C09", check, c, err)
 		}
 	})
 }
